@@ -177,6 +177,7 @@ func c19Store(c *Ctx) {
 			}
 			// read-modify-write: a write to m whose decision read of m happened in an earlier hold
 			readHold := map[string]int{}
+			keyHold := map[string]int{} // map|key -> hold in which that key was last looked up
 			hold := map[string]int{}
 			for _, e := range p.Events {
 				if e.Kind == "call" {
@@ -193,10 +194,20 @@ func c19Store(c *Ctx) {
 				switch e.Kind {
 				case "maplookup", "range":
 					readHold[m] = hold[g] + 1
+					if e.Kind == "maplookup" && len(e.Args) > 1 {
+						keyHold[m+"|"+e.Args[1].Key()] = hold[g] + 1
+					}
 				case "mapupdate", "mapdelete":
 					if rh, had := readHold[m]; had && rh != hold[g]+1 {
 						okRMW = false
 						whyRMW = fmt.Sprintf("%s is read and later written (%s) with %s released in between", m, c.P.Pos(e.Instr.Pos()), g)
+					}
+					// check-then-insert: the presence test of this very key must be in the same hold as the write
+					if len(e.Args) > 1 {
+						if kh, had := keyHold[m+"|"+e.Args[1].Key()]; had && kh != hold[g]+1 {
+							okRMW = false
+							whyRMW = fmt.Sprintf("%s[%s] is tested and later written (%s) with %s released in between (check-then-act window)", m, clip(e.Args[1].Pretty(), 40), c.P.Pos(e.Instr.Pos()), g)
+						}
 					}
 				}
 			}
